@@ -147,8 +147,11 @@ def parse_frame(f: bytes):
     return p
 
 
-def norm_frame(f: bytes):
-    """An emitted frame reduced to what the properties determine: MACs, EtherType, addresses, protocol, length fields,
+def norm_frame(f: bytes, app_fn=None):
+    """(app_fn: applied to a TCP / UDP payload before it is reported, e.g. runner.mask_app; every length field is then
+    reported minus the number of bytes app_fn removed, so that two replies whose only difference is the width of a
+    wall-clock value -- chrono prints the day of the month unpadded, 'Fri, 2 Oct' / 'Sat, 10 Oct' -- compare equal.)
+    An emitted frame reduced to what the properties determine: MACs, EtherType, addresses, protocol, length fields,
     fragment bits, ports, seq / ack / flags / data offset, payload, ICMP type / code / rest; TTL, hop limit and TCP
     window only as the predicates the properties state (>= 1, == 255, != 0); every checksum only as 'valid'. Fields no
     property mentions (TOS, IPv4 identification, traffic class, flow label, urgent pointer) are dropped. Used wherever
@@ -159,21 +162,25 @@ def norm_frame(f: bytes):
     t = (p.mac_dst, p.mac_src, p.ety)
     if p.ety == 0x0806:
         return t + ("arp", p.arp)
+    app, cut = (bytes(p.app) if p.app is not None else None), 0
+    if app_fn is not None and app is not None and p.proto in (6, 17):
+        app2 = app_fn(app)
+        cut, app = len(app) - len(app2), app2
     if p.ipver == 4:
         hdr = p.l3[:p.ihl * 4]
-        t += (4, p.ihl, p.total, p.l3[6:8], p.ttl >= 1, p.proto, p.ip_src, p.ip_dst, csum(hdr) == 0)
+        t += (4, p.ihl, p.total - cut, p.l3[6:8], p.ttl >= 1, p.proto, p.ip_src, p.ip_dst, csum(hdr) == 0)
         ps = lambda ln: pseudo(p.ip_src, p.ip_dst, p.proto, ln)
     elif p.ipver == 6:
-        t += (6, p.plen, p.proto, p.hlim >= 1, p.hlim == 255, p.ip_src, p.ip_dst)
+        t += (6, p.plen - cut, p.proto, p.hlim >= 1, p.hlim == 255, p.ip_src, p.ip_dst)
         ps = lambda ln: pseudo(p.ip_src, p.ip_dst, p.proto, ln)
     else:
         return t + ("l3", p.l3)
     l4 = p.l4
     if p.proto == 6 and p.app is not None:
-        return t + ("tcp", p.sport, p.dport, p.seq, p.ack, p.doff, p.flags, p.win != 0, csum(ps(len(l4)) + l4) == 0, bytes(p.app))
+        return t + ("tcp", p.sport, p.dport, p.seq, p.ack, p.doff, p.flags, p.win != 0, csum(ps(len(l4)) + l4) == 0, app)
     if p.proto == 17 and p.app is not None:
         ok = (p.cks == 0 and p.ipver == 4) or csum(ps(len(l4)) + l4) == 0
-        return t + ("udp", p.sport, p.dport, p.ulen, p.cks != 0, ok, bytes(p.app))
+        return t + ("udp", p.sport, p.dport, p.ulen - cut, p.cks != 0, ok, app)
     if p.proto == 1 and l4 is not None and len(l4) >= 4:
         return t + ("icmp4", l4[0], l4[1], csum(l4) == 0, l4[4:])
     if p.proto == 58 and l4 is not None and len(l4) >= 4:
